@@ -1,10 +1,313 @@
 import Driver.Common
-/-! Driver ops of this group; `handle op args` returns `none` for ops it does not know. -/
+import Driver.ParserD
+import GoSSE.Model.Connection
+import GoSSE.Model.Registry
+/-! Driver ops of the client group (C10–C13); `handle op args` returns `none` for ops it does not know.
+
+* `CONN <backoff> <defaults> <body> <hdr> <done0> <history>` — a whole `Connect` run (C10, C11, C12)
+* `CTRL <backoff> <defaults> <ops>` — the back-off controller alone (C12)
+* `FLOAT g <cur> <maxI> <mul>` / `FLOAT n <cur> <jit> <draw>` — `growInterval` / `nextInterval` (C12, testing)
+* `MERGE <backoff> <defaults>` — `mergeDefaults` (C12)
+* `REG <mode> <script>` — subscription scripts (C13); `REGC …` — concurrent variant, judged by the harness
+-/
 namespace Driver.ClientD
-open GoSSE Driver
+open GoSSE GoSSE.Spec GoSSE.Spec.Client GoSSE.Model GoSSE.Model.Client Driver
+
+/-! ### parsing -/
+
+def parseFV (s : String) : FV :=
+  if s == "nan" then .nan else
+  match s.splitOn "/" with
+  | [n, d] => .rat ((parseInt? n).getD 0) (d.toNat?.getD 1)
+  | [n] => .rat ((parseInt? n).getD 0) 1
+  | _ => .nan
+
+def showFV : FV → String
+  | .nan => "nan"
+  | .rat n d => s!"{n}/{d}"
+
+def int (s : String) : Int := (parseInt? s).getD 0
+
+/-- `ii,mul,jit,maxI,maxE,maxR` -/
+def parseBackoff (s : String) : Backoff FV :=
+  match s.splitOn "," with
+  | [ii, mul, jit, mi, me, mr] => ⟨int ii, parseFV mul, parseFV jit, int mi, int me, int mr⟩
+  | [ii, mul, jit] => ⟨int ii, parseFV mul, parseFV jit, 0, 0, 0⟩
+  | _ => ⟨0, .nan, .nan, 0, 0, 0⟩
+
+def showBackoff (b : Backoff FV) : String :=
+  s!"{b.initialInterval},{showFV b.multiplier},{showFV b.jitter},{b.maxInterval},{b.maxElapsedTime},{b.maxRetries}"
+
+def ratOf : FV → Int × Nat
+  | .rat n d => (n, d)
+  | .nan => (0, 1)
+
+def floatsOf (b : Backoff FV) : Floats :=
+  let m := ratOf b.multiplier
+  let j := ratOf b.jitter
+  exactFloats m.1 m.2 j.1 j.2
+
+/-- the specification's view of a merged configuration -/
+def scfgOf (b : Backoff FV) : SCfg :=
+  let m := ratOf b.multiplier
+  { initialInterval := b.initialInterval, maxInterval := b.maxInterval, maxElapsedTime := b.maxElapsedTime,
+    maxRetries := b.maxRetries, jitterOff := b.jitter == .rat (-1) 1 || (match b.jitter with | .rat n d => n == -(d : Int) | _ => false),
+    mul := fun x => (x * m.1).tdiv m.2 }
+
+/-! ### printing -/
+
+def showErr : ErrV → String
+  | .nil => "nil" | .ctx => "CTX" | .transport => "TRANSPORT" | .validator => "VALIDATOR"
+  | .noGetBody => "NOGETBODY" | .getBody => "GETBODY" | .eof => "EOF" | .ueof => "UEOF"
+  | .read => "READ" | .tooLong => "TOOLONG"
+
+def showReason : Reason → String
+  | .resetFailed => "reset" | .connFailed => "conn" | .validation => "valid" | .lost => "lost"
+
+def showRes : Res → String
+  | .bare e => "B:" ++ showErr e
+  | .wrapped why e => "W:" ++ showReason why ++ ":" ++ showErr e
+
+def showBody : BodyRef → String
+  | .none => "nil" | .noBody => "nobody" | .orig => "B0" | .fresh k => s!"B{k}"
+
+def showHdr : Option Bytes → String
+  | none => "none"
+  | some b => "h:" ++ hex b
+
+def showItem : TItem → String
+  | .attempt h b g => s!"A {showHdr h} {showBody b} {g}"
+  | .connected outs => "C " ++ ParserD.showOuts (outs.filter isEvent)
+  | .retry e w => s!"R {showRes e} {w}"
+
+def showTrace (tr : List TItem) (r : Option Res) : String :=
+  " | ".intercalate (tr.map showItem ++ [match r with | some r => "RET " ++ showRes r | none => "RET pending"])
+
+/-! ### CONN -/
+
+structure PAttempt where
+  kind : Char            -- T V S
+  sub : Char             -- T: 0..3; V: 0/1; S: E R C K
+  ewl : Bool := false
+  cancel : String := "-"
+  chunks : List Bytes := []
+  bang : Bool := false
+
+def parseAttempt (s0 : String) : PAttempt :=
+  let bang := s0.startsWith "!"
+  let s := if bang then (s0.drop 1).toString else s0
+  let cs := s.toList
+  match cs with
+  | 'T' :: c :: _ => { kind := 'T', sub := c, bang }
+  | 'V' :: c :: _ => { kind := 'V', sub := c, bang }
+  | 'S' :: c :: _ =>
+    match s.splitOn ":" with
+    | [hd, cancel, chunks] =>
+      { kind := 'S', sub := c, ewl := hd.toList.contains 'w', cancel, chunks := (unhexList chunks).filter (!·.isEmpty), bang }
+    | _ => { kind := 'S', sub := c, bang }
+  | _ => { kind := 'T', sub := '1', bang }
+
+def sourceOf (p : PAttempt) : Source :=
+  { chunks := p.chunks, endErr := p.sub != 'E', errWithLast := p.ewl }
+
+/-- is the context cancelled during this attempt, before `doConnect` inspects it? For `e<k>` this
+depends on how many events the stream dispatches (`nEvents`). -/
+def cancelDuringOf (p : PAttempt) (nEvents : Nat) : Bool :=
+  match p.kind with
+  | 'T' => p.sub == '1' || p.sub == '3'
+  | 'V' => p.sub == '1'
+  | _ =>
+    p.sub == 'C' || p.cancel == "b" ||
+      (p.cancel.startsWith "e" && (match (p.cancel.drop 1).toNat? with | some k => decide (k ≥ 1 ∧ k ≤ nEvents) | none => false))
+
+def countEv (o : List Out) : Nat := (o.filter isEvent).length
+
+/-- observed trace: number of `A` items, is the result the bare context error, waits of the `R` items -/
+def parseGo (go : String) : Nat × Bool × List Int :=
+  let items := go.splitOn " | "
+  let nA := (items.filter (·.startsWith "A ")).length
+  let ctx := items.any (· == "RET B:CTX")
+  let waits := items.filterMap fun it =>
+    if it.startsWith "R " then (match it.splitOn " " with | [_, _, w] => parseInt? w | _ => none) else none
+  (nA, ctx, waits)
+
+def conn (args : List String) : String × String :=
+  match args with
+  | bk :: df :: body :: hdr :: done0 :: hist :: rest =>
+    let go := (rest.find? (·.startsWith "GO=")).map (fun s => (s.drop 3).toString)
+    let (nA, retCtx, waits) := parseGo (go.getD "")
+    let b := mergeDefaults FV.ops (parseBackoff df) (parseBackoff bk)
+    let cfg := toCfg FV.ops b
+    let fl0 := floatsOf b
+    -- with jitter on, the random draw is not an input of the case: the abstract `jitter` function is
+    -- instantiated with what the environment produced (draw = index of the retry)
+    let fl : Floats := { fl0 with jitter := fun c u => waits.getD u.toNat c }   -- a refused retry has no observed wait: its base
+    let (body0, gb) : BodyRef × GetBody := match body.splitOn ":" with
+      | ["none"] => (.none, .absent)
+      | ["nobody"] => (.noBody, .absent)
+      | ["gb"] => (.orig, .present none)
+      | ["gbfail", k] => (.orig, .present (some (k.toNat?.getD 0)))
+      | _ => (.orig, .absent)
+    let hdr0 : Option Bytes := if hdr.startsWith "h:" then some (unhex (hdr.drop 2).toString) else none
+    let ps := ((hist.splitOn ";").filter (· != "-")).map parseAttempt ++ [{ kind := 'T', sub := '1' }]
+    let timerWins (i : Nat) : Bool := decide (i < nA) || !retCtx
+    -- model attempts: `cancelDuring` of `e<k>` needs the number of events the model's read dispatches;
+    -- thread the last event ID as the model does
+    let mk : List PAttempt → Nat → Bytes → List Attempt
+      := fun ps i0 id0 => (ps.foldl (fun (acc : List Attempt × Nat × Bytes) p =>
+          let (l, i, id) := acc
+          match p.kind with
+          | 'T' => (l ++ [{ timerWins := timerWins i, out := .transport (p.sub == '1' || p.sub == '2'),
+                            cancelDuring := cancelDuringOf p 0, cancelAfter := p.bang, draw := i }], i + 1, id)
+          | 'V' => (l ++ [{ timerWins := timerWins i, out := .rejected, cancelDuring := cancelDuringOf p 0,
+                            cancelAfter := p.bang, draw := i }], i + 1, id)
+          | _ =>
+            let r := implRun true id (sourceOf p) none
+            (l ++ [{ timerWins := timerWins i, out := .stream (sourceOf p) (p.sub == 'C' || p.sub == 'K'),
+                     cancelDuring := cancelDuringOf p (countEv r.1), cancelAfter := p.bang, draw := i }],
+             i + 1, GoSSE.Spec.Client.lastDispatched id r.1)) ([], i0, id0)).1
+    let h := mk ps 0 []
+    let c : Conn := { req := { header := hdr0, body := body0, getBody := gb } }
+    let m := connect cfg fl c 0 (boolOf done0) h
+    -- specification attempts
+    let sc := scfgOf b
+    let smk := (ps.foldl (fun (acc : List SAttempt × Nat × Bytes) p =>
+          let (l, i, id) := acc
+          let w : Int → Int := fun b => waits.getD i b
+          match p.kind with
+          | 'T' => (l ++ [{ timerWins := timerWins i, out := .transport (p.sub == '1' || p.sub == '2'),
+                            cancelDuring := cancelDuringOf p 0, cancelAfter := p.bang, elapsed := 0, wait := w }], i + 1, id)
+          | 'V' => (l ++ [{ timerWins := timerWins i, out := .rejected, cancelDuring := cancelDuringOf p 0,
+                            cancelAfter := p.bang, elapsed := 0, wait := w }], i + 1, id)
+          | _ =>
+            let bytes := p.chunks.flatten
+            let ek : EndKind := if p.sub == 'E' then .eof else .err
+            let r := Spec.run .gosse true id bytes ek
+            (l ++ [{ timerWins := timerWins i, out := .stream bytes ek (p.sub == 'C' || p.sub == 'K'),
+                     cancelDuring := cancelDuringOf p (countEv r.1), cancelAfter := p.bang, elapsed := 0, wait := w }],
+             i + 1, GoSSE.Spec.Client.lastDispatched id r.1)) (([] : List SAttempt), 0, ([] : Bytes))).1
+    let s := specConnect sc body0 gb hdr0 (boolOf done0) smk
+    -- C12, jitter on: every observed wait must lie within ±Jitter of its base (+1 ns)
+    let j := ratOf b.jitter
+    let bases : List Int := (s.1.foldl (fun (acc : List Int × Nat × Int) it =>
+        let (l, k, b1) := acc
+        match it with
+        | .connected outs => (l, 0, retryBase sc.initialInterval outs)
+        | .retry _ _ => (l ++ [baseAt sc b1 k], k + 1, b1)
+        | _ => (l, k, b1)) ([], 0, sc.initialInterval)).1
+    let within := cfg.jitterOff || (bases.zip waits).all fun (bw : Int × Int) =>
+      let d := bw.2 - bw.1
+      -- |w - b| * jd ≤ jn * b + 2*jd
+      decide ((if d < 0 then -d else d) * j.2 ≤ j.1 * bw.1 + 2 * j.2)
+    (showTrace m.trace m.result, showTrace s.1 s.2 ++ (if within then "" else " | JITTER-OUT-OF-BOUNDS"))
+  | _ => ("bad-args", "bad-args")
+
+/-! ### CTRL -/
+
+def ctrl (args : List String) : String × String :=
+  match args with
+  | bk :: df :: ops :: _ =>
+    let b := mergeDefaults FV.ops (parseBackoff df) (parseBackoff bk)
+    let cfg := toCfg FV.ops b
+    let fl := floatsOf b
+    let sc := scfgOf b
+    let opl := (ops.splitOn ";").filter (· != "-")
+    -- model: clock = 0 at every reset, `now = elapsed` at every next
+    let m := opl.foldl (fun (acc : Ctl × List String) o =>
+      let (c, out) := acc
+      match o.splitOn ":" with
+      | ["N", el, dr] =>
+        let c0 := { c with start := 0 }     -- SetElapsed
+        let r := c0.next cfg fl (int el) (int dr)
+        (r.1, out ++ [s!"N {match r.2 with | some w => toString w | none => "stop"} {r.1.interval} {r.1.numRetries}"])
+      | ["R", d] =>
+        let c' := c.reset cfg (int d) 0
+        (c', out ++ [s!"R {c'.interval} {c'.numRetries}"])
+      | _ => (c, out ++ ["?"])) (Ctl.new cfg 0, [])
+    -- specification: (b1, k) and closed forms
+    let s := opl.foldl (fun (acc : (Int × Nat) × List String) o =>
+      let ((b1, k), out) := acc
+      match o.splitOn ":" with
+      | ["N", el, dr] =>
+        if !retryAllowed sc k then ((b1, k), out ++ [s!"N stop {baseAt sc b1 k} {k}"])
+        else
+          let base := baseAt sc b1 k
+          let w := if sc.jitterOff then base else fl.jitter base (int dr)
+          let stop := sc.maxElapsedTime > 0 && int el + w > sc.maxElapsedTime
+          ((b1, k + 1), out ++ [s!"N {if stop then "stop" else toString w} {baseAt sc b1 (k + 1)} {k + 1}"])
+      | ["R", d] =>
+        let b1' := if int d > 0 then int d else sc.initialInterval
+        ((b1', 0), out ++ [s!"R {b1'} 0"])
+      | _ => ((b1, k), out ++ ["?"])) ((sc.initialInterval, 0), [])
+    (" | ".intercalate m.2, " | ".intercalate s.2)
+  | _ => ("bad-args", "bad-args")
+
+/-! ### FLOAT, MERGE -/
+
+def float (args : List String) : String × String :=
+  match args with
+  | "g" :: cur :: maxI :: mul :: _ =>
+    let m := ratOf (parseFV mul)
+    let fl := exactFloats m.1 m.2 0 1
+    let r := growInterval fl (int cur) (int maxI)
+    -- specification: min(cur·mul, maxI) when maxI is set
+    let p := (int cur * m.1).tdiv m.2
+    let s := if int maxI > 0 then min p (int maxI) else p
+    (toString r, toString s)
+  | "n" :: cur :: jit :: draw :: _ =>
+    let j := ratOf (parseFV jit)
+    let cfg : Cfg := { initialInterval := 1, jitterOff := parseFV jit == .rat (-1) 1 }
+    let fl := exactFloats 1 1 j.1 j.2
+    let r := nextInterval cfg fl (int cur) (int draw)
+    (toString r, toString r)
+  | _ => ("bad-args", "bad-args")
+
+def merge (args : List String) : String × String :=
+  match args with
+  | bk :: df :: _ =>
+    let b := parseBackoff bk
+    let d := parseBackoff df
+    let m := mergeDefaults FV.ops d b
+    let s : Backoff FV := { b with
+      initialInterval := if keepInitial b.initialInterval then b.initialInterval else d.initialInterval,
+      multiplier := if keepMultiplier (b.multiplier.cls) then b.multiplier else d.multiplier,
+      jitter := if keepJitter (b.jitter.cls) then b.jitter else d.jitter }
+    (showBackoff m, showBackoff s)
+  | _ => ("bad-args", "bad-args")
+
+/-! ### REG -/
+
+def parseROp (s : String) : Option ROp :=
+  match s.splitOn ":" with
+  | ["s", t] => some (.sub (unhex t))
+  | ["a"] => some .subAll
+  | ["u", k] => k.toNat?.map .unsub
+  | ["e", t] => some (.event (unhex t))
+  | _ => none
+
+def sortNat (l : List Nat) : List Nat := (l.toArray.qsort (· < ·)).toList
+
+def showLog (log : List (List Nat)) : String :=
+  if log.isEmpty then "-" else
+  ";".intercalate (log.map fun ids => if ids.isEmpty then "_" else ",".intercalate ((sortNat ids).map toString))
+
+def reg (args : List String) : String × String :=
+  match args with
+  | _mode :: script :: _ =>
+    let ops := ((script.splitOn ";").filter (· != "-")).filterMap parseROp
+    let m := runScript ops
+    let s := specScript ops
+    (showLog m.log ++ " | ord=ok", showLog s.log ++ " | ord=ok")
+  | _ => ("bad-args", "bad-args")
 
 def handle (op : String) (args : List String) : Option (String × String) :=
-  match op, args with
-  | _, _ => none
+  match op with
+  | "CONN" => some (conn args)
+  | "CTRL" => some (ctrl args)
+  | "FLOAT" => some (float args)
+  | "MERGE" => some (merge args)
+  | "REG" => some (reg args)
+  | "REGC" => some ("ok", "ok")
+  | _ => none
 
 end Driver.ClientD
